@@ -8,6 +8,7 @@ import HdVerif.Generated.TC09e
 import HdVerif.Model.MatchOps
 import HdVerif.Generated.TC09f
 import HdVerif.Generated.TC09g
+import HdVerif.Generated.TC09h
 /-! # Model for C09: `geometry_equal`, `match_geometry`, `VolumeToVolumeTransformer`, bounds checks
 (`src/highdicom/volume.py`).
 
